@@ -550,6 +550,18 @@ SLOTS.update({
     ('arguments', 'kw_defaults'): ('def f(*, p=a, q=b):\n    pass', [('body', 0), ('args', None), ('kw_defaults', 1)]),
     ('arg', 'annotation'): ('def f(p: a):\n    pass', [('body', 0), ('args', None), ('args', 0), ('annotation', None)]),
 })
+# tight layouts: the target is redundantly parenthesised and touches keywords on both sides, so removing the parentheses
+# requires separating blanks (alnum merge handling in _make_exprlike_fst)
+SLOTS.update({
+    ('IfExp', 'test@tight'): ('x = p if(a)else q', V + [('test', None)]),
+    ('IfExp', 'body@tight'): ('x = (a)if b else q', V + [('body', None)]),
+    ('Compare', 'comparators@tight'): ('x = b in(a)if c else d', V + [('body', None), ('comparators', 0)]),
+    ('ListComp', 'elt@tight'): ('x = [(a)for b in c]', V + [('elt', None)]),
+    ('comprehension', 'iter@tight'): ('x = [a for b in(c)if d]', V + [('generators', 0), ('iter', None)]),
+    ('BoolOp', 'values@tight'): ('x = p and(a)and q', V + [('values', 1)]),
+    ('Not', 'operand@tight'): ('x = not(a)', V + [('operand', None)]),
+    ('Return', 'value@tight'): ('def f():\n    return(a)', [('body', 0), ('body', 0), ('value', None)]),
+})
 PC = [('body', 0), ('cases', 0), ('pattern', None)]
 PAT_SLOTS = {
     ('MatchAs', 'pattern'): ('match s:\n    case 1 as z:\n        pass', PC + [('pattern', None)]),
@@ -706,7 +718,7 @@ def replace_jobs(ctx, full):
                     if form == 'ast' and lay != 'bare':
                         continue
                     jobs.append((key, psrc, path, pat, ck, csrc, lay, form))
-                    if path[-1][1] is not None and key[1] in ('values', 'elts', 'args', 'bases', 'patterns', 'decorator_list'):
+                    if path[-1][1] is not None and key[1].split('@')[0] in ('values', 'elts', 'args', 'bases', 'patterns', 'decorator_list'):
                         jobs.append((key, psrc, path, pat, ck, csrc, lay, form, 'put_slice'))
     return jobs
 
